@@ -8,6 +8,7 @@ import (
 	"bytes"
 	"encoding/gob"
 	"fmt"
+	"net"
 	"os"
 	"path/filepath"
 	"sort"
@@ -18,6 +19,7 @@ import (
 	"github.com/DistCompiler/pgo/distsys/hashmap"
 	"github.com/DistCompiler/pgo/distsys/resources"
 	"github.com/DistCompiler/pgo/distsys/tla"
+	"github.com/DistCompiler/pgo/systems/raftkvs"
 	"verif/mc/gate2"
 )
 
@@ -27,13 +29,14 @@ type mres struct {
 	idx  map[string]string // cat map
 	in   []string          // cat in: inputs still to be offered, in order
 	out  []string          // cat out: messages delivered to the receiver, in order
+	list []string // cat log: entries of the persistent log
 	// persistent kinds: value durably stored by the last committed section that wrote the cell ("" = never)
 	persist bool
 	stored  string
 }
 
 func (m *mres) clone() *mres {
-	c := &mres{cell: m.cell, in: append([]string(nil), m.in...), out: append([]string(nil), m.out...), persist: m.persist, stored: m.stored}
+	c := &mres{cell: m.cell, in: append([]string(nil), m.in...), out: append([]string(nil), m.out...), persist: m.persist, stored: m.stored, list: append([]string(nil), m.list...)}
 	if m.idx != nil {
 		c.idx = map[string]string{}
 		for k, v := range m.idx {
@@ -61,6 +64,10 @@ func (m *mres) render(cat string) string {
 			b.WriteString(k + "=" + m.idx[k] + ";")
 		}
 		return b.String()
+	case "counter":
+		return m.cell
+	case "log":
+		return "list[" + strings.Join(m.list, ",") + "]|stored[" + strings.Join(m.list, ",") + "]"
 	case "in":
 		return "pending[" + strings.Join(m.in, ",") + "]"
 	case "out":
@@ -81,7 +88,11 @@ type instance struct {
 	// observe renders the complete observable state in the format of mres.render; partial=true when a part of
 	// the state could not be read back (missing hook) and the rendering covers the rest.
 	observe func(g *gate2.Gate) (string, error)
-	fin     func()
+	// observeWant (optional) is used instead of observe when delivery is asynchronous: it polls until the
+	// rendering equals want or a generous cap expires, and returns the last rendering
+	observeWant func(g *gate2.Gate, want string) (string, error)
+	valueOf     func(o gate2.Op) (tla.Value, bool) // non-string values written by "w" operations
+	fin         func()
 }
 
 const nInputs = 12
@@ -92,6 +103,7 @@ type wenv struct {
 	seq     int
 	db      *badgerDB
 	gobs    gobCache
+	portBase, portNext int
 }
 
 func strOf(v tla.Value) (s string) {
@@ -139,7 +151,7 @@ func idxKey(o gate2.Op) string {
 }
 
 var quickKinds = []string{"local", "ilocal", "reflocal", "incmap", "hashmap", "inchan", "outchan", "shared"}
-var slowKinds = []string{"file", "persistent", "persistent-shared"}
+var slowKinds = []string{"file", "persistent", "persistent-shared", "custominchan", "plog", "tcpout", "twopc", "crdt"}
 
 // build creates a fresh instance of kind under variable name.
 func build(kind, name string, env *wenv) *instance {
@@ -372,10 +384,206 @@ func build(kind, name string, env *wenv) *instance {
 			return b.String(), nil
 		}
 		in.fin = func() { os.RemoveAll(dir) }
+	case "custominchan":
+		in.cat = "in"
+		in.init = &mres{}
+		ch := make(chan tla.Value, nInputs+4)
+		for i := 1; i <= nInputs; i++ {
+			s := fmt.Sprintf("%s_in%d", name, i)
+			in.init.in = append(in.init.in, s)
+			ch <- tla.MakeString(s)
+		}
+		ic := raftkvs.NewCustomInChan(ch, 20*time.Second)
+		wrap(ic)
+		in.menu = []gate2.Op{opR(name)}
+		in.observe = func(*gate2.Gate) (string, error) {
+			var pend []string
+			h, ok := any(ic).(interface {
+				VerifBuffered() (buffer, backlog []tla.Value)
+			})
+			if !ok {
+				return "", errNoHook
+			}
+			buf, backlog := h.VerifBuffered()
+			if len(backlog) != 0 {
+				return "", fmt.Errorf("%d consumed inputs still held as in-flight at a label boundary", len(backlog))
+			}
+			for _, v := range buf {
+				pend = append(pend, strOf(v))
+			}
+			n := len(ch)
+			for i := 0; i < n; i++ {
+				v := <-ch
+				pend = append(pend, strOf(v))
+				ch <- v
+			}
+			return "pending[" + strings.Join(pend, ",") + "]", nil
+		}
+	case "plog":
+		in.cat = "log"
+		in.init = &mres{}
+		db := openBadger(env)
+		env.seq++
+		pname := fmt.Sprintf("%s-%d-%d", name, env.w, env.seq)
+		pl := raftkvs.NewPersistentLog(pname, db.db)
+		wrap(pl)
+		in.menu = []gate2.Op{opR(name), opW(name), {K: "w", R: name, V: "pop"}}
+		in.valueOf = func(o gate2.Op) (tla.Value, bool) {
+			if o.V == "pop" {
+				return tla.MakeRecord([]tla.RecordField{{Key: tla.MakeString("cmd"), Value: tla.MakeString("log_pop")}, {Key: tla.MakeString("cnt"), Value: tla.MakeNumber(1)}}), true
+			}
+			return tla.MakeRecord([]tla.RecordField{{Key: tla.MakeString("cmd"), Value: tla.MakeString("log_concat")}, {Key: tla.MakeString("entries"), Value: tla.MakeTuple(tla.MakeString(o.V))}}), true
+		}
+		in.observe = func(g *gate2.Gate) (string, error) {
+			v, err := pl.ReadValue(g.Ctx.IFace())
+			if err != nil {
+				return "", err
+			}
+			cur := tupleStrings(v)
+			var stored []string
+			for i := 0; ; i++ {
+				s, ok, err := db.readRaw(fmt.Sprintf("raftkvs.plog.%v.%d", pname, i))
+				if err != nil {
+					return "", err
+				}
+				if !ok {
+					break
+				}
+				stored = append(stored, s)
+			}
+			return "list[" + strings.Join(cur, ",") + "]|stored[" + strings.Join(stored, ",") + "]", nil
+		}
+	case "tcpout":
+		in.cat = "out"
+		in.init = &mres{}
+		addr := fmt.Sprintf("127.0.0.1:%d", env.port())
+		wr := resources.NewTCPMailboxes(func(tla.Value) (resources.MailboxKind, string) { return resources.MailboxesRemote, addr },
+			resources.WithMailboxesDialTimeout(5*time.Second), resources.WithMailboxesWriteTimeout(5*time.Second))
+		rd := resources.NewTCPMailboxes(func(tla.Value) (resources.MailboxKind, string) { return resources.MailboxesLocal, addr },
+			resources.WithMailboxesReadTimeout(3*time.Millisecond))
+		func() {
+			defer func() {
+				if x := recover(); x != nil {
+					panic(envProblem{fmt.Sprint(x)})
+				}
+			}()
+			rd.Index(distsys.ArchetypeInterface{}, tla.MakeNumber(1))
+		}()
+		wrap(gate2.AsyncClose{ArchetypeResource: wr})
+		in.menu = []gate2.Op{opWI(name, 1)}
+		var delivered []string
+		drain := func(g *gate2.Gate) error {
+			for {
+				sub, err := rd.Index(g.Ctx.IFace(), tla.MakeNumber(1))
+				if err != nil {
+					return err
+				}
+				v, err := sub.ReadValue(g.Ctx.IFace())
+				if err != nil {
+					return nil // nothing (more) is waiting at the receiver
+				}
+				delivered = append(delivered, strOf(v))
+				rd.Commit(g.Ctx.IFace())
+			}
+		}
+		in.observeWant = func(g *gate2.Gate, want string) (string, error) {
+			deadline := time.Now().Add(15 * time.Second)
+			for {
+				if err := drain(g); err != nil {
+					return "", err
+				}
+				got := "delivered[" + strings.Join(delivered, ",") + "]"
+				if got == want || len(got) > len(want) || time.Now().After(deadline) {
+					return got, nil
+				}
+			}
+		}
+		in.fin = func() { gate2.AsyncClose{ArchetypeResource: rd}.Close() }
+	case "twopc":
+		in.cat = "cell"
+		in.init = &mres{cell: name + "_0"}
+		addr := fmt.Sprintf("127.0.0.1:%d", env.port())
+		var rcvr *resources.TwoPCReceiver
+		res := resources.NewTwoPC(tla.MakeString(in.init.cell), addr, nil, tla.MakeString(name), func(r *resources.TwoPCReceiver) { rcvr = r })
+		wrap(res)
+		in.menu = []gate2.Op{opR(name), opW(name)}
+		in.observe = func(*gate2.Gate) (string, error) {
+			h, ok := any(rcvr).(interface {
+				VerifC01State() (value, oldValue tla.Value, inCS bool)
+			})
+			if !ok {
+				return "", errNoHook
+			}
+			v, old, inCS := h.VerifC01State()
+			if inCS {
+				return "", fmt.Errorf("the 2PC variable still has a critical section open at a label boundary")
+			}
+			if !v.Equal(old) {
+				return "", fmt.Errorf("current value %v differs from the committed value %v at a label boundary", v, old)
+			}
+			return strOf(v), nil
+		}
+		in.fin = func() {
+			defer func() { recover() }()
+			resources.CloseTwoPCReceiver(rcvr)
+		}
+	case "crdt":
+		in.cat = "counter"
+		in.init = &mres{cell: "0"}
+		addr := fmt.Sprintf("127.0.0.1:%d", env.port())
+		id := tla.MakeString(name)
+		res := resources.NewCRDT(id, nil, func(tla.Value) string { return addr }, resources.GCounter{}, resources.WithCRDTBroadcastInterval(5*time.Millisecond))
+		wrap(gate2.AsyncClose{ArchetypeResource: res})
+		in.menu = []gate2.Op{opR(name), opW(name)}
+		in.valueOf = func(o gate2.Op) (tla.Value, bool) { return tla.MakeNumber(int32(counterAmount(o))), true }
+		in.observe = func(g *gate2.Gate) (string, error) {
+			v, err := res.ReadValue(g.Ctx.IFace())
+			if err != nil {
+				return "", err
+			}
+			return fmt.Sprint(v.AsNumber()), nil
+		}
+		in.fin = func() { gate2.AsyncClose{ArchetypeResource: res}.Close() }
 	default:
 		panic("c01: unknown kind " + kind)
 	}
 	return in
+}
+
+// counterAmount is what a "w" operation adds to a grow-only counter (derived from its unique tag "t<sec><op>").
+func counterAmount(o gate2.Op) int {
+	n := 0
+	for _, c := range o.V {
+		if c >= '0' && c <= '9' {
+			n = n*10 + int(c-'0')
+		}
+	}
+	return n + 1
+}
+
+func tupleStrings(v tla.Value) (out []string) {
+	defer func() { recover() }()
+	it := v.StripVClock().AsTuple().Iterator()
+	for !it.Done() {
+		_, e := it.Next()
+		out = append(out, strOf(e))
+	}
+	return out
+}
+
+type envProblem struct{ what string }
+
+func (e *wenv) port() int {
+	for i := 0; i < 3000; i++ {
+		p := e.portBase + e.portNext%300
+		e.portNext++
+		l, err := net.Listen("tcp", fmt.Sprintf("127.0.0.1:%d", p))
+		if err == nil {
+			l.Close()
+			return p
+		}
+	}
+	panic(envProblem{"no free loopback port"})
 }
 
 var errNoHook = fmt.Errorf("overlay hook VerifBuffered not compiled in")
